@@ -144,6 +144,9 @@ var (
 	workDir string
 	simBin  string
 	mu      sync.Mutex
+	// simSrc is the directory the simulation binary is built from (the harness module, or
+	// a private copy of it when VERIF_SKIP / VERIF_REPO ask for one)
+	simSrc = filepath.Join(verifDir, "sim")
 )
 
 func die(code int, format string, args ...interface{}) {
@@ -195,6 +198,7 @@ func build(race bool) {
 			die(2, "rsync: %v\n%s", err, out)
 		}
 		cmd.Dir = src
+		simSrc = src
 		if altRepo != "" {
 			// development aid: build against another checkout of the repository (a scratch
 			// worktree with a seeded change, a snapshot) instead of /repo
@@ -984,7 +988,7 @@ func cmdReplay(args []string) {
 func racePass(scenario string, seed int64, total *agg) []string {
 	bin := filepath.Join(workDir, "simrace.test")
 	cmd := exec.Command(goBin, "test", "-c", "-race", "-tags", "verif", "-o", bin, "./simtest")
-	cmd.Dir = filepath.Join(verifDir, "sim")
+	cmd.Dir = simSrc
 	env := os.Environ()
 	env = append(env, "GOFLAGS=-mod=mod", "GOPROXY=off", "GOSUMDB=off", "GOTOOLCHAIN=local", "CGO_ENABLED=1")
 	cmd.Env = env
